@@ -144,11 +144,55 @@ func hopSet(h http.Header) map[string]bool {
 	return s
 }
 
-// flatten splits header lines into their comma-separated members.
+// splitList splits one header line into its list elements following the
+// grammar of RFC 7230 3.2.6: a comma separates elements only outside a
+// comment; comments nest; inside a comment a backslash quotes the next octet
+// (so "\(" and "\)" neither open nor close anything). Only Via values carry
+// comments here.
+func splitList(line string) []string {
+	var out []string
+	depth, start := 0, 0
+	for i := 0; i < len(line); i++ {
+		switch c := line[i]; {
+		case c == '\\' && depth > 0:
+			i++
+		case c == '(':
+			depth++
+		case c == ')' && depth > 0:
+			depth--
+		case c == ',' && depth == 0:
+			out = append(out, line[start:i])
+			start = i + 1
+		}
+	}
+	return append(out, line[start:])
+}
+
+// stripComments removes the comments of one list element (for looking at its
+// protocol and received-by fields).
+func stripComments(e string) string {
+	var sb strings.Builder
+	depth := 0
+	for i := 0; i < len(e); i++ {
+		switch c := e[i]; {
+		case c == '\\' && depth > 0:
+			i++
+		case c == '(':
+			depth++
+		case c == ')' && depth > 0:
+			depth--
+		case depth == 0:
+			sb.WriteByte(c)
+		}
+	}
+	return sb.String()
+}
+
+// flatten splits header lines into their list members.
 func flatten(lines []string) []string {
 	var out []string
 	for _, l := range lines {
-		for _, e := range strings.Split(l, ",") {
+		for _, e := range splitList(l) {
 			if e = trimOWS(e); e != "" {
 				out = append(out, e)
 			}
@@ -172,7 +216,7 @@ func equalStrings(a, b []string) bool {
 // namesSelf: a Via member whose received-by field (second
 // whitespace-separated field) is this instance's pseudonym.
 func namesSelf(entry, self string) bool {
-	f := strings.FieldsFunc(entry, func(r rune) bool { return r == ' ' || r == '\t' })
+	f := strings.FieldsFunc(stripComments(entry), func(r rune) bool { return r == ' ' || r == '\t' })
 	return len(f) >= 2 && f[1] == self
 }
 
@@ -380,6 +424,21 @@ func checkVia(m reqModel, out []string, stamp, self, where string, v *kit.Verdic
 	}
 }
 
+// falseLoopShape: the one known way to a false loop is a comment that mentions
+// this instance after a comma ("1.1 fred (seen, 1.1 martian-b earlier)"), which
+// a comma split that ignores comments turns into an element of its own.
+func falseLoopShape(m reqModel, self string) string {
+	for _, l := range m.in["Via"] {
+		for _, frag := range strings.Split(l, ",") {
+			f := strings.FieldsFunc(frag, func(r rune) bool { return r == ' ' || r == '\t' })
+			if len(f) >= 2 && f[1] == self {
+				return "self-mentioned-in-comment-after-comma"
+			}
+		}
+	}
+	return "no-self-entry"
+}
+
 func loopShape(m reqModel) string {
 	switch {
 	case m.hop["Via"]:
@@ -488,7 +547,8 @@ func runInproc(c Case) kit.Verdict {
 		v.Addf("C14/loop/"+loopShape(m)+"/not-detected", "Via lines %q name this instance (%s) but ModifyRequest returned %v, skip-round-trip=%v", m.in["Via"], self, rerr, skip)
 	}
 	if !m.loop && skip {
-		v.Addf("C14/loop/no-self-entry/false-loop", "Via lines %q do not name this instance (%s) but the round trip is skipped (error %v)", m.in["Via"], self, rerr)
+		v.Addf("C14/loop/"+falseLoopShape(m, self)+"/false-loop", "Via lines %q do not name this instance (%s) but the round trip is skipped (error %v)", m.in["Via"], self, rerr)
+		return v // everything else on this request is a consequence
 	}
 	if m.clConflict && rerr == nil {
 		v.Addf("C14/framing/content-length-conflict/unflagged", "Content-Length lines %q conflict but ModifyRequest returned nil", m.in["Content-Length"])
@@ -699,10 +759,31 @@ func genHeaders(t *rapid.T, o genOpts) []HL {
 
 func viaEntry(t *rapid.T, who string) string {
 	e := rapid.SampledFrom(viaProto).Draw(t, "via_proto") + rapid.SampledFrom([]string{" ", " ", "  ", "\t"}).Draw(t, "via_sp") + who
-	if rapid.IntRange(0, 3).Draw(t, "via_comment") == 0 {
-		e += " " + rapid.SampledFrom([]string{"(Apache/1.1)", "(squid)", "(x y)"}).Draw(t, "via_comment_text")
+	if rapid.IntRange(0, 2).Draw(t, "via_comment") == 0 {
+		e += " " + genComment(t, 0)
 	}
 	return e
+}
+
+// genComment draws a comment of the RFC 7230 3.2.6 grammar: ctext words,
+// commas, quoted-pairs of parentheses and backslash, nested comments.
+// Parentheses are always balanced unless quoted.
+func genComment(t *rapid.T, depth int) string {
+	var parts []string
+	for i, n := 0, rapid.IntRange(1, 3).Draw(t, "comment_parts"); i < n; i++ {
+		switch k := rapid.IntRange(0, 9).Draw(t, "comment_part"); {
+		case k <= 3:
+			parts = append(parts, rapid.SampledFrom([]string{"squid/3.5", "Apache/1.1", "pool a", "x y", "cache-7"}).Draw(t, "comment_word"))
+		case k <= 6:
+			parts = append(parts, rapid.SampledFrom([]string{`\(`, `\(`, `\)`, `\\`, `a\(b`, `\(x\)`}).Draw(t, "comment_quoted"))
+		case k <= 8 && depth < 2:
+			parts = append(parts, genComment(t, depth+1))
+		default:
+			parts = append(parts, "n")
+		}
+	}
+	sep := rapid.SampledFrom([]string{" ", ", ", ","}).Draw(t, "comment_sep")
+	return "(" + strings.Join(parts, sep) + ")"
 }
 
 // genVia draws 0..3 Via lines of 0..3 members; optionally places this
@@ -723,7 +804,10 @@ func genVia(t *rapid.T) []HL {
 	case 0, 1, 2:
 		special = viaEntry(t, "{self}")
 	case 3, 4:
-		switch rapid.IntRange(0, 5).Draw(t, "near_miss") {
+		switch rapid.IntRange(0, 6).Draw(t, "near_miss") {
+		case 6:
+			// this proxy mentioned inside a comment, after a comma: not a list element
+			special = "1.1 fred (seen, 1.1 {self} earlier)"
 		case 0:
 			special = viaEntry(t, "{name}-0123456789abcdef0123")
 		case 1:
@@ -950,6 +1034,20 @@ func classes(c Case) []string {
 	add(m.viaLines > 1, "via-multi-line")
 	add(m.loop, "via-self")
 	add(m.loop && !m.loopFirst, "via-self-later-line")
+	commentComplex, quotedOpenBeforeSelf, seenQuotedOpen := false, false, false
+	for _, e := range m.viaPrev {
+		if namesSelf(e, "\x00SELF") && seenQuotedOpen {
+			quotedOpenBeforeSelf = true
+		}
+		if i := strings.IndexByte(e, '('); i >= 0 {
+			c := e[i:]
+			commentComplex = commentComplex || strings.ContainsAny(c[1:], ",(\\")
+			seenQuotedOpen = seenQuotedOpen || strings.Contains(c, `\(`)
+		}
+	}
+	add(!m.loop && falseLoopShape(m, "\x00SELF") != "no-self-entry", "via-self-mentioned-in-comment")
+	add(commentComplex, "via-comment-with-comma-nesting-or-quoted-pair")
+	add(quotedOpenBeforeSelf, "via-quoted-open-paren-before-self")
 	nearMiss := false
 	for _, e := range m.viaPrev {
 		if !namesSelf(e, "\x00SELF") && (strings.Contains(e, "\x00SELF") || strings.Contains(e, " "+c.Name)) {
@@ -1010,6 +1108,7 @@ var propStack = &kit.Prop[Case]{
 		"xff-multi-line": 0.1, "framing-cl-conflict": 0.1, "framing-te-bad": 0.1, "res-conn-nominates-present-ext": 0.15,
 		"remote-v6": 0.2, "host-differs-from-url": 0.2, "request-without-host": 0.05,
 		"conn-nominates-via": 0.05, "conn-nominates-via-with-self": 0.015,
+		"via-comment-with-comma-nesting-or-quoted-pair": 0.2, "via-quoted-open-paren-before-self": 0.03,
 		"conn-nominates-x-forwarded": 0.1, "conn-nominates-x-forwarded-present": 0.05,
 		"user-response-modifier-fails": 0.15, "user-request-modifier-fails": 0.1, "url-raw-path-kept": 0.25, "url-bare-question-mark": 0.05, "url-userinfo": 0.1,
 	},
